@@ -6,9 +6,42 @@ application by tools/props/c18.py.  The sequential scan is `cfgFile.runFile`.
 -/
 import FeVerif.Model.Extract
 import FeVerif.Proofs.Frame
+import FeVerif.Proofs.PyDecoder
 
 namespace FeVerif
 open Cfg Extract
+
+/-- **The reader returns the indexed messages.** Iterating the index of the scan with the reader's
+per-entry re-validation (seek, header, size limit, payload, CRC) returns every entry, with exactly
+the bytes `file[offset, offset+length)` — the `messages` the extraction writes. -/
+theorem C18_reader_returns_indexed_messages (input : Bytes) :
+    readIndexed input (cfgFile.runFile input 0) = messages input := by
+  unfold readIndexed messages
+  have h : ∀ p ∈ cfgFile.runFile input 0, readEntry input p.1 = some (slice input p.1 p.2) := by
+    intro p hp
+    have hv := runFile_mem_valid (c := cfgFile) input 0 p hp
+    rw [Nat.sub_zero, stepFile_emit_iff, step_emit_iff] at hv
+    obtain ⟨h1, h2, h3, h4, h5⟩ := hv
+    have hml : cfgFile.msgLen (input.drop p.1) = HDR + u32le (input.drop p.1) 16 := by
+      unfold Cfg.msgLen cfgFile; simp only; unfold HDR; rw [u32le_take (by omega)]
+    rw [hml] at h3
+    have hok : fileHeaderOk ((input.drop p.1).take HDR) = true := h2
+    unfold fileHeaderOk at hok
+    simp only [Bool.and_eq_true, decide_eq_true_eq] at hok
+    have hmax : u32le (input.drop p.1) 16 ≤ MAX_EXPECTED := by
+      have := hok.2; unfold HDR at this; rwa [u32le_take (by omega)] at this
+    have hlen : HDR ≤ (input.drop p.1).length := h1
+    unfold readEntry slice
+    rw [if_neg (by omega), if_neg (by omega), if_neg (by omega), ← h3]
+    have h5' : pyCrcOk ((input.drop p.1).take p.2) = true := h5
+    rw [if_pos h5']
+  generalize cfgFile.runFile input 0 = l at h
+  induction l with
+  | nil => rfl
+  | cons a r ih =>
+    rw [List.filterMap_cons, h a (List.mem_cons_self), List.map_cons]
+    simp only
+    rw [ih (fun p hp => h p (List.mem_cons_of_mem _ hp))]
 
 /-- A byte string that the scan accepts whole. -/
 def Whole (m : Bytes) : Prop := cfgFile.stepFile m = .emit m.length
